@@ -1,6 +1,124 @@
 import ElaVerif.Model.Confirm
+import ElaVerif.Lemmas.Confirm
+/-!
+# C25 — a block confirmation needs a two-thirds quorum of distinct current arbiters
+
+Model: `ElaVerif/Model/Confirm.lean` (blockchain/confirmvalidator.go, the threshold of
+dpos/state/arbitrators.go).  Signature validity is a per-vote flag (idealised signature
+scheme: the harness produces real ECDSA signatures matching the flags and the real
+`crypto.Verify` decides).  The `float64` threshold `int(float64(n)*2/3)` is tied to
+`majority n = 2n/3` by enumeration in the correspondence (not a theorem).
+-/
 namespace ElaVerif.C25
 open ElaVerif.Confirm
+
+/-- the threshold is two thirds rounded down. -/
 theorem C25_majority_bounds (n : Nat) : 3 * majority n ≤ 2 * n ∧ 2 * n < 3 * (majority n + 1) := by
   unfold majority; omega
+
+/-- "more than `majority n`" is "more than two thirds" in exact arithmetic. -/
+theorem C25_has_majority_iff (n k : Nat) : hasMajority n k = true ↔ 2 * n < 3 * k := by
+  unfold hasMajority majority; simp; omega
+
+/-- **Acceptance, characterised.**  A confirmation passes `ConfirmSanityCheck` and
+    `ConfirmContextCheck` exactly when the proposal signature verifies, the sponsor is a normal
+    current arbiter, *every* vote is an accepting vote naming this proposal with a valid
+    signature by a normal current arbiter, and the distinct signers number more than two thirds
+    (rounded down) of the arbiter count. -/
+theorem C25_accept_iff (arbs : List Arb) (c : Conf) :
+    accepted arbs c = true ↔
+      c.sponsorSigOk = true ∧ isNormalArb arbs c.sponsor = true ∧
+      (∀ v ∈ c.votes, v.accept = true ∧ v.hashOk = true ∧ v.sigOk = true ∧
+        isNormalArb arbs v.signer = true) ∧
+      2 * arbs.length / 3 < (signers c).length := by
+  unfold accepted sanity context
+  cases hs : c.sponsorSigOk
+  · simp
+  · simp only [Bool.not_true, Bool.false_eq_true, if_false, Bool.and_eq_true, beq_iff_eq, true_and]
+    rw [voteSanity_none]
+    by_cases hm : (signers c).length ≤ majority arbs.length
+    · rw [if_pos hm]
+      unfold majority at hm
+      constructor
+      · intro ⟨_, h⟩; cases h
+      · intro ⟨_, _, h⟩; omega
+    · rw [if_neg hm]
+      unfold majority at hm
+      cases hsp : isNormalArb arbs c.sponsor
+      · simp
+      · simp only [Bool.not_true, Bool.false_eq_true, if_false, true_and]
+        by_cases hall : (c.votes.all fun v => isNormalArb arbs v.signer) = true
+        · rw [if_pos hall]
+          rw [List.all_eq_true] at hall
+          constructor
+          · intro ⟨h1, _⟩
+            exact ⟨fun v hv => ⟨(h1 v hv).1, (h1 v hv).2.1, (h1 v hv).2.2, hall v hv⟩, by omega⟩
+          · intro ⟨h1, _⟩
+            exact ⟨fun v hv => ⟨(h1 v hv).1, (h1 v hv).2.1, (h1 v hv).2.2.1⟩, rfl⟩
+        · rw [if_neg hall]
+          rw [List.all_eq_true] at hall
+          constructor
+          · intro ⟨_, h⟩; cases h
+          · intro ⟨h1, _⟩
+            exact absurd (fun v hv => (h1 v hv).2.2.2) hall
+
+/-- **Acceptance is sound**: the accepted confirmation exhibits a duplicate-free list of more
+    than `2n/3` keys, each the key of a normal current arbiter who signed a valid accepting vote
+    for exactly this proposal. -/
+theorem C25_accept_sound (arbs : List Arb) (c : Conf) (h : accepted arbs c = true) :
+    (signers c).Nodup ∧ 2 * arbs.length / 3 < (signers c).length ∧
+    (∀ k ∈ signers c, (∃ a ∈ arbs, a.normal = true ∧ a.key = k) ∧
+      ∃ v ∈ c.votes, v.signer = k ∧ v.accept = true ∧ v.hashOk = true ∧ v.sigOk = true) ∧
+    c.sponsorSigOk = true ∧ (∃ a ∈ arbs, a.normal = true ∧ a.key = c.sponsor) := by
+  obtain ⟨h1, h2, h3, h4⟩ := (C25_accept_iff arbs c).1 h
+  refine ⟨nodup_dedup _, h4, ?_, h1, isNormalArb_iff.1 h2⟩
+  intro k hk
+  unfold signers at hk
+  rw [mem_dedup, List.mem_map] at hk
+  obtain ⟨v, hv, rfl⟩ := hk
+  have hvm := (List.mem_filter.1 hv).1
+  obtain ⟨a1, a2, a3, a4⟩ := h3 v hvm
+  exact ⟨isNormalArb_iff.1 a4, v, hvm, rfl, a1, a2, a3⟩
+
+/-- non-vacuity: 4 arbiters, 3 distinct valid votes (3 > 2·4/3 = 2) is accepted; with a
+    duplicate instead of the third signer it is not. -/
+example : accepted [⟨1, true⟩, ⟨2, true⟩, ⟨3, true⟩, ⟨4, true⟩]
+    ⟨1, true, [⟨1, true, true, true⟩, ⟨2, true, true, true⟩, ⟨3, true, true, true⟩]⟩ = true := by decide
+example : accepted [⟨1, true⟩, ⟨2, true⟩, ⟨3, true⟩, ⟨4, true⟩]
+    ⟨1, true, [⟨1, true, true, true⟩, ⟨2, true, true, true⟩, ⟨2, true, true, true⟩]⟩ = false := by decide
+
+/-- **Quorum intersection, for every set size.**  Two duplicate-free lists of members of a set
+    of at most `n` elements, each longer than `2n/3`, share more than `n/3` elements. -/
+theorem C25_quorum_intersection (n : Nat) (A B U : List Nat) (hA : A.Nodup) (hB : B.Nodup)
+    (hAU : ∀ x ∈ A, x ∈ U) (hBU : ∀ x ∈ B, x ∈ U) (hU : U.length ≤ n)
+    (qA : 2 * n / 3 < A.length) (qB : 2 * n / 3 < B.length) :
+    n / 3 < (A.filter (fun x => decide (x ∈ B))).length := by
+  have := inter_length A B U hA hB hAU hBU
+  omega
+
+example : (2 * 4 / 3 < [1, 2, 3].length) ∧ (2 * 4 / 3 < [2, 3, 4].length) ∧
+    4 / 3 < ([1, 2, 3].filter (fun x => decide (x ∈ [2, 3, 4]))).length := by decide
+
+/-- **Any two acceptable confirmations for the same arbiter set share more than a third of the
+    arbiters**: the common signers are more than `n/3` distinct keys of normal current arbiters. -/
+theorem C25_confirms_intersect (arbs : List Arb) (c1 c2 : Conf)
+    (h1 : accepted arbs c1 = true) (h2 : accepted arbs c2 = true) :
+    let common := (signers c1).filter (fun k => decide (k ∈ signers c2))
+    arbs.length / 3 < common.length ∧ common.Nodup ∧
+      ∀ k ∈ common, ∃ a ∈ arbs, a.normal = true ∧ a.key = k := by
+  obtain ⟨n1, q1, m1, _, _⟩ := C25_accept_sound arbs c1 h1
+  obtain ⟨n2, q2, m2, _, _⟩ := C25_accept_sound arbs c2 h2
+  have hsub : ∀ (c : Conf), (∀ k ∈ signers c, (∃ a ∈ arbs, a.normal = true ∧ a.key = k) ∧
+      ∃ v ∈ c.votes, v.signer = k ∧ v.accept = true ∧ v.hashOk = true ∧ v.sigOk = true) →
+      ∀ k ∈ signers c, k ∈ dedup (arbs.map (·.key)) := by
+    intro c m k hk
+    obtain ⟨⟨a, ha, _, rfl⟩, _⟩ := m k hk
+    exact mem_dedup.2 (List.mem_map.2 ⟨a, ha, rfl⟩)
+  have hU : (dedup (arbs.map (·.key))).length ≤ arbs.length := by
+    have := length_dedup_le (arbs.map (·.key)); simpa using this
+  refine ⟨C25_quorum_intersection arbs.length _ _ _ n1 n2 (hsub c1 m1) (hsub c2 m2) hU q1 q2,
+    List.Pairwise.filter _ n1, ?_⟩
+  intro k hk
+  exact (m1 k (List.mem_filter.1 hk).1).1
+
 end ElaVerif.C25
